@@ -316,10 +316,11 @@ def sub_derived(inp):
         return p.but(scope=p.scope.but(**skw) if skw else p.scope, pattern=p.pattern.but(**pkw))
 
     got, r = _verdict(derive)
-    if got == 'other:TypeError' and kind == 'ref':
-        # renaming may make two references of incompatible types coincide (then a type error is the documented outcome,
-        # see C14): no verdict about scoping can be read off
-        return 'ref:type-clash-abstained'
+    if got == 'other:TypeError':
+        # renaming may make two references of incompatible types coincide - two references to the renamed alias, or (when a
+        # binder takes the name of an alias its own predicate refers to) a reference that now means the event's own message
+        # and an own field (then a type error is the documented outcome, see C14): no verdict about scoping can be read off
+        return kind + ':type-clash-abstained'
     if got != expect:
         raise Violation(
             'derived', f'{kind}:{want}:{got}', dict(inp, text=text),
